@@ -1,12 +1,11 @@
 import BPT.Core.Tree
 import BPT.Core.Res
-import BPT.Arena.Model
 /-
   Executable model of the pure-Python BPlusTreeMap (python/bplustree/bplus_tree.py).
   Import-free apart from BPT core files.
 
   * same height-indexed tree as the Rust model; leaves carry a creation serial `id`
-    (Python object identity) and `next` = the serial of the next leaf (`nullId` = None);
+    (Python object identity, starting at 1) and `next` = the serial of the next leaf (`noneId` = 0 = None);
     branch ids are unused (0);
   * `none` = the Python code raises something other than KeyError at this point
     (ValueError of the defensive checks, IndexError).
@@ -15,6 +14,8 @@ namespace BPT.Py
 open BPT
 
 def minCapacity : Nat := 4
+/-- `None` in a `next` field / `self.leaves`; leaf serials start at 1 and only grow, so they never collide with it -/
+def noneId : Nat := 0
 /-- `(capacity - 1) // 2` -/
 def minKeys (cap : Nat) : Nat := (cap - 1) / 2
 def isFull (cap n : Nat) : Bool := decide (n ≥ cap)
@@ -176,6 +177,27 @@ def mergeBranchSibling (cap : Nat) (b : Branch K (Branch K α)) (i : Nat) : Opti
       | _, _ => none
     else some b
 
+/-- the siblings `_handle_underflow` looks at -/
+def sibRight (b : Branch K α) (i : Nat) : Option α := if i + 1 < b.children.length then b.children[i+1]? else none
+def sibLeft (b : Branch K α) (i : Nat) : Option α := if i > 0 then b.children[i-1]? else none
+
+/-- `_redistribute_from_right`, leaf case: child `i` takes the first entry of child `i+1` -/
+def leafBorrowRightAt (b : Branch K (Leaf K V)) (i : Nat) (c r : Leaf K V) : Option (Branch K (Leaf K V)) :=
+  match leafBorrowRight c r with
+  | none => none
+  | some (c', r', sep) => if i < b.keys.length then some (replace2 b i c' r' sep) else none
+/-- `_redistribute_from_left`, leaf case: child `i` takes the last entry of child `i-1` -/
+def leafBorrowLeftAt (b : Branch K (Leaf K V)) (i : Nat) (a c : Leaf K V) : Option (Branch K (Leaf K V)) :=
+  match leafBorrowLeft a c with
+  | none => none
+  | some (a', c', sep) => if i - 1 < b.keys.length then some (replace2 b (i-1) a' c' sep) else none
+
+/-- second half of `_handle_underflow` (leaf child): the right sibling did not donate -/
+def handleLeafLeft (cap : Nat) (b : Branch K (Leaf K V)) (i : Nat) (c : Leaf K V) : Option (Branch K (Leaf K V)) :=
+  match sibLeft b i with
+  | some a => if canDonate cap a.keys.length then leafBorrowLeftAt b i a c else mergeLeafSibling cap b i
+  | none => mergeLeafSibling cap b i
+
 /-- `_handle_underflow` for a leaf child -/
 def handleLeaf (cap : Nat) (b : Branch K (Leaf K V)) (i : Nat) : Option (Branch K (Leaf K V)) :=
   match b.children[i]? with
@@ -184,26 +206,25 @@ def handleLeaf (cap : Nat) (b : Branch K (Leaf K V)) (i : Nat) : Option (Branch 
     if ¬ isUnderfull cap c.keys.length then some b
     else if c.keys.length = 0 then mergeLeafSibling cap b i
     else
-      let right : Option (Leaf K V) := if i + 1 < b.children.length then b.children[i+1]? else none
-      let left : Option (Leaf K V) := if i > 0 then b.children[i-1]? else none
-      match right with
-      | some r =>
-        if canDonate cap r.keys.length then
-          (leafBorrowRight c r).bind fun (c', r', sep) => if i < b.keys.length then some (replace2 b i c' r' sep) else none
-        else
-          match left with
-          | some a =>
-            if canDonate cap a.keys.length then
-              (leafBorrowLeft a c).bind fun (a', c', sep) => if i - 1 < b.keys.length then some (replace2 b (i-1) a' c' sep) else none
-            else mergeLeafSibling cap b i
-          | none => mergeLeafSibling cap b i
-      | none =>
-        match left with
-        | some a =>
-          if canDonate cap a.keys.length then
-            (leafBorrowLeft a c).bind fun (a', c', sep) => if i - 1 < b.keys.length then some (replace2 b (i-1) a' c' sep) else none
-          else mergeLeafSibling cap b i
-        | none => mergeLeafSibling cap b i
+      match sibRight b i with
+      | some r => if canDonate cap r.keys.length then leafBorrowRightAt b i c r else handleLeafLeft cap b i c
+      | none => handleLeafLeft cap b i c
+
+/-- `_redistribute_from_right`, branch case -/
+def branchBorrowRightAt (b : Branch K (Branch K α)) (i : Nat) (c r : Branch K α) : Option (Branch K (Branch K α)) :=
+  match b.keys[i]? with
+  | none => none
+  | some sep => (branchBorrowRight c r sep).map fun (c', r', mk) => replace2 b i c' r' mk
+/-- `_redistribute_from_left`, branch case -/
+def branchBorrowLeftAt (b : Branch K (Branch K α)) (i : Nat) (a c : Branch K α) : Option (Branch K (Branch K α)) :=
+  match b.keys[i-1]? with
+  | none => none
+  | some sep => (branchBorrowLeft a c sep).map fun (a', c', mk) => replace2 b (i-1) a' c' mk
+
+def handleBranchLeft (cap : Nat) (b : Branch K (Branch K α)) (i : Nat) (c : Branch K α) : Option (Branch K (Branch K α)) :=
+  match sibLeft b i with
+  | some a => if canDonate cap a.keys.length then branchBorrowLeftAt b i a c else mergeBranchSibling cap b i
+  | none => mergeBranchSibling cap b i
 
 /-- `_handle_underflow` for a branch child -/
 def handleBranch (cfg : Cfg) (cap : Nat) (b : Branch K (Branch K α)) (i : Nat) : Option (Branch K (Branch K α)) :=
@@ -213,32 +234,9 @@ def handleBranch (cfg : Cfg) (cap : Nat) (b : Branch K (Branch K α)) (i : Nat) 
     if ¬ isUnderfull cap c.keys.length then some b
     else if c.keys.length = 0 ∧ ¬ cfg.emptyShortcutLeafOnly then mergeBranchSibling cap b i
     else
-      let right : Option (Branch K α) := if i + 1 < b.children.length then b.children[i+1]? else none
-      let left : Option (Branch K α) := if i > 0 then b.children[i-1]? else none
-      match right with
-      | some r =>
-        if canDonate cap r.keys.length then
-          match b.keys[i]? with
-          | none => none
-          | some sep => (branchBorrowRight c r sep).map fun (c', r', mk) => replace2 b i c' r' mk
-        else
-          match left with
-          | some a =>
-            if canDonate cap a.keys.length then
-              match b.keys[i-1]? with
-              | none => none
-              | some sep => (branchBorrowLeft a c sep).map fun (a', c', mk) => replace2 b (i-1) a' c' mk
-            else mergeBranchSibling cap b i
-          | none => mergeBranchSibling cap b i
-      | none =>
-        match left with
-        | some a =>
-          if canDonate cap a.keys.length then
-            match b.keys[i-1]? with
-            | none => none
-            | some sep => (branchBorrowLeft a c sep).map fun (a', c', mk) => replace2 b (i-1) a' c' mk
-          else mergeBranchSibling cap b i
-        | none => mergeBranchSibling cap b i
+      match sibRight b i with
+      | some r => if canDonate cap r.keys.length then branchBorrowRightAt b i c r else handleBranchLeft cap b i c
+      | none => handleBranchLeft cap b i c
 
 def handleUnderflow (cfg : Cfg) (cap : Nat) : (h : Nat) → Branch K (Tree K V h) → Nat → Option (Branch K (Tree K V h))
   | 0, b, i => handleLeaf cap b i
@@ -284,12 +282,12 @@ structure PState (K V : Type) where
   nextId : Nat
   cache : Option Nat := none   -- `_rightmost_leaf_cache`
 
-def emptyLeaf (id : Nat) : Leaf K V := { id := id, keys := [], vals := [], next := nullId }
+def emptyLeaf (id : Nat) : Leaf K V := { id := id, keys := [], vals := [], next := noneId }
 
 /-- `BPlusTreeMap(capacity)`; `none` = InvalidCapacityError -/
 def new (cap : Nat) : Option (PState K V) :=
   if cap < minCapacity then none
-  else some { cap := cap, height := 0, root := (emptyLeaf 0 : Leaf K V), head := 0, nextId := 1 }
+  else some { cap := cap, height := 0, root := (emptyLeaf 1 : Leaf K V), head := 1, nextId := 2 }
 
 /-- `clear()`: a fresh leaf (the serial keeps growing: new Python object) -/
 def clear (s : PState K V) : PState K V :=
@@ -341,7 +339,7 @@ def findLeafById (ls : List (Leaf K V)) (id : Nat) : Option (Leaf K V) := ls.fin
 def chainFrom (ls : List (Leaf K V)) : Nat → Nat → Res (List (Leaf K V))
   | 0, _ => .diverge
   | f+1, id =>
-    if id = nullId then .ok []
+    if id = noneId then .ok []
     else match findLeafById ls id with
       | none => .panic                      -- dangling reference cannot happen in Python (objects stay alive); model artefact
       | some l => (chainFrom ls f l.next).map (l :: ·)
